@@ -9,12 +9,12 @@ REAL_NOTE = "Real-code layer: every accepted grammar of G(2,2,3,2)/sym (quick; t
 CHECKS = {
  "C07": ("E1+E4 totality sweep", "exploration",
          "bounded-exhaustive exploration of four input families through the real generate in child processes with a per-input watchdog, plus bound probes",
-         "No panic, abort or hang on: (a) every string of <=5 (quick) / <=7 (thorough) symbols over a 28-symbol alphabet (one representative per lexer character class and UTF-8 length); (b) every viable token-kind prefix of the Kiki grammar to depth 13 / 16 and every one-token extension, rendered to text; (c) every file of <=3 / <=4 items over the 184-item alphabet of C10 (all combinations of static violations); (d) every grammar of the C04 scopes (variant-less enums, no terminals, unreachable/unproductive nonterminals); (e) 25 bound probes at the stated bounds (2000 declarations, 64 KiB, nesting 256), each in its own process. A child that dies is re-run sequentially in trace mode to attribute the abort to an input.",
+         "No panic, abort or hang on: (a) every string of <=5 (quick) / <=7 (thorough) symbols over a 30-symbol alphabet (one representative per lexer character class and UTF-8 length); (b) every viable token-kind prefix of the Kiki grammar to depth 13 / 16 and every one-token extension, rendered to text; (c) every file of <=3 / <=4 items over the 184-item alphabet of C10 (all combinations of static violations); (d) every grammar of the C04 scopes (variant-less enums, no terminals, unreachable/unproductive nonterminals); (e) 25 bound probes at the stated bounds (2000 declarations, 64 KiB, nesting 256), each in its own process. A child that dies is re-run sequentially in trace mode to attribute the abort to an input.",
          "Between the small scopes and the bound probes the claim rests on the small-scope hypothesis; a probe that exceeds its time limit is inconclusive, never a violation (the automaton construction is polynomial of high degree).",
          "DESIGN.md section 3, C07"),
  "C08": ("E4 textsweep", "exploration",
          "bounded-exhaustive exploration of all strings over a symbol alphabet; oracle: independent reference lexer (R-lex)",
-         "Every string of <=5 (quick) / <=7 (thorough) symbols over the 28-symbol alphabet, plus the repository's grammar files and hand-picked maximal-munch / attribute cases: if R-lex tokenises the string, the real tokenizer (hook) must return the same (kind, text, position) vector and generate must not report a lexical error; if R-lex rejects at (i, c), both must report exactly Lex(i, c).",
+         "Every string of <=5 (quick) / <=7 (thorough) symbols over the 30-symbol alphabet, plus the repository's grammar files and hand-picked maximal-munch / attribute cases: if R-lex tokenises the string, the real tokenizer (hook) must return the same (kind, text, position) vector and generate must not report a lexical error; if R-lex rejects at (i, c), both must report exactly Lex(i, c).",
          "R-lex (appendix B) is the reading of the documented rules; longer strings rest on the small-scope hypothesis (9-state tokenizer).",
          "DESIGN.md section 3, C08"),
  "C09": ("E4 textsweep", "model_checking",
@@ -29,7 +29,7 @@ CHECKS = {
          "DESIGN.md section 3, C10"),
  "C12": ("E4 textsweep", "exploration",
          "bounded-exhaustive exploration of all attribute bodies over a symbol alphabet; differential oracle (strip attributes, generate, re-insert)",
-         "Every attribute body of <=4 symbols (quick; thorough <=6 single, <=5 in all placements) over ( ) [ ] { } a space \" # / $ e-acute euro emoji newline, before a struct, an enum and the terminal declaration, alone, with a trailing comment, without line break, and with a second attribute in both orders: for balanced bodies, generate(source) equals generate(source without attributes) with each declaration's attributes inserted as lines immediately before its `pub struct|enum` (verbatim, right place, right order, nowhere else); otherwise exactly the Lex error of C08.",
+         "Every attribute body of <=4 symbols in the plain placement and <=3 symbols in all placements (quick; thorough <=5 / <=4) over ( ) [ ] { } a space \" # / $ e-acute euro emoji newline backslash tab CR, before a struct, an enum and the terminal declaration, alone, with a trailing comment, without line break, and with a second attribute in both orders: for balanced bodies, generate(source) equals generate(source without attributes) with each declaration's attributes inserted as lines immediately before its `pub struct|enum` (verbatim, right place, right order, nowhere else); otherwise exactly the Lex error of C08.",
          "the emitted definition line starts with `pub struct NAME` / `pub enum NAME`; if not found the oracle reports 'not applicable', never a violation.",
          "DESIGN.md section 3, C12"),
  "C13": ("E4 textsweep (+E3)", "exploration",
